@@ -148,6 +148,17 @@ func run(c *core.Ctx) {
 			}
 		}
 	}
+	for bi, n := range gen.BoundaryLens() {
+		if !c.Mine(bi) || n == 0 {
+			continue
+		}
+		for _, sp := range []string{"\n", "\r", "\x00", " ", "\x10", "\u00e9", ".", ""} {
+			checkConst(c, gen.Pad("a", n)+sp)
+			checkPrefix(c, "pre", gen.Pad("b-_1", n)+sp)
+			checkPrefix(c, gen.Pad("p", n), gen.Pad("p", n)+"-x"+sp)
+			checkPrefix(c, "row", "row-"+gen.Pad("7", n))
+		}
+	}
 	r := c.Rng("soup")
 	atoms := []string{"a", "B", "0", "9", "-", "_", "\n", "\x00", " ", "é", "٣", "́", "\xff", ".", ":", "<", "\"", "ab", "id"}
 	for i := 0; i < c.N(300000, 3000000)/c.NShards; i++ {
